@@ -593,3 +593,8 @@ def run(ctx) -> None:
     ctx.guard(check_matrix_handling, ctx)
     check_count_both(ctx)
     check_warmup(ctx)
+    from . import stepform
+
+    ctx.rule("C16.step", "finite evaluation on concrete arrays: one hit-and-run step stays inside the region, on the line, at the requested position of the whole feasible chord; distance-to-bounds, re-projection and restart point", floor=2)
+    ctx.guard(stepform.check_step, ctx, "C16.step")
+    ctx.guard(stepform.check_helpers, ctx, "C16.step")
